@@ -80,7 +80,41 @@ let clause_name = function
   | CScope -> "modifiers_see_exactly_the_requests_sent"
   | CRelay -> "upstream_contacted_and_status_is_origins"
 
+(* concurrent batch: P nconn nreq / E.conn.ctx.sess ... F.live *)
+let judge_conc ins outs =
+  match ins with
+  | [_; nc; nr] ->
+      let nc = int_of_string nc and nr = int_of_string nr in
+      let obs = ref [] and live = ref (-1) and other = ref [] in
+      List.iter (fun t -> match String.split_on_char '.' t with
+        | ["E"; k; c; s] -> obs := ((nat k, nat c), nat s) :: !obs
+        | ["F"; l] -> live := int_of_string l
+        | _ -> other := t :: !other) outs;
+      let obs = List.rev !obs in
+      if List.mem "RESMISMATCH" !other then
+        VPropfail ("resmod_once_same_request_same_ctx", "concurrent batch: a response modifier saw other IDs than the request modifier of its exchange")
+      else if not (conc_ok obs) then begin
+        let ctxs = List.map (fun ((_, c), _) -> int_of_nat c) obs in
+        let dup = List.length (List.sort_uniq compare ctxs) <> List.length ctxs in
+        VPropfail ((if dup then "ctx_fresh" else "session_shared_per_connection"),
+                   Printf.sprintf "concurrent batch %dx%d: %d exchanges, %d distinct context IDs, sessions seen: %d"
+                     nc nr (List.length obs) (List.length (List.sort_uniq compare ctxs))
+                     (List.length (List.sort_uniq compare (List.map (fun (_, s) -> int_of_nat s) obs))))
+      end
+      else if !live <> 0 then VPropfail ("no_context_after_exchange", Printf.sprintf "concurrent batch: %d contexts still linked" !live)
+      else if !other <> [] then VDisagree ("concurrent batch: " ^ String.concat "_" !other)
+      else begin
+        (* the serial schedule explains the renamed observation *)
+        let sched = List.concat (List.init nc (fun k -> List.init nr (fun _ -> nat_of_int k))) in
+        if conc_run O sched = obs then VOk true
+        else VDisagree "concurrent batch: observation is not the renamed serial schedule"
+      end
+  | _ -> VDisagree "bad concurrent case"
+
 let judge _name ins outs =
+  if (match ins with "P" :: _ -> true | _ -> false) then
+    (match outs with ["BADCASE"] -> VOk false | _ -> (try judge_conc ins outs with _ -> VDisagree "concurrent batch: unparsable"))
+  else
   (* a leading D = downstream proxy configured: connect() sends the CONNECT to that
      proxy instead of dialling the target; the model's Dial / 200 / 502 cover both *)
   let ins = (match ins with "D" :: r -> r | _ -> ins) in
